@@ -218,6 +218,16 @@ def Env.verifies (e : Env) (pk : PubKey) (c : Content) (sig : String) : Bool :=
 def Env.WF (e : Env) : Prop :=
   ∀ sig c ks bits, (sig, c, ks, bits) ∈ e.aggs → ∀ k ∈ enabled ks bits, ∃ s, (k, c, s) ∈ e.signed
 
+/-! ## the signature cache -/
+
+/-- `BatchTuple.Key()`: the key under which a verified (public key, message, signature) triple is
+remembered — the three byte strings in full, one after the other -/
+def cacheKey (pk msg sig : Bytes) : Bytes := pk ++ msg ++ sig
+
+/-- `CheckCache`: a triple counts as verified when its key is among the remembered keys -/
+def cacheHit (remembered : List (Bytes × Bytes × Bytes)) (pk msg sig : Bytes) : Bool :=
+  (remembered.map fun t => cacheKey t.1 t.2.1 t.2.2).contains (cacheKey pk msg sig)
+
 /-! ## errors -/
 
 open Canopy.Gen.Err.lib in
